@@ -205,7 +205,7 @@ def check_dump(ck, m, parsed, encrypted, case):
 def run(ck):
     thorough = ck.thorough()
     rng = ck.rng('c05', ck.shard[0])
-    N = 5000 if not thorough else 160000
+    N = 5000 if not thorough else 900000
     for i in range(N):
         if not ck.mine(i):
             continue
@@ -289,7 +289,7 @@ def run(ck):
         if not enc and i % 2 == 0:
             framing(ck, rng, m, data)
     # ---- (3b) fixed point on accepted mutants
-    for i in range(1500 if not thorough else 40000):
+    for i in range(1500 if not thorough else 250000):
         if not ck.mine(i):
             continue
         m = gen.gen_message(rng, n_payloads=rng.randrange(1, 5), with_unknown=True)
